@@ -1,12 +1,810 @@
-//! C10: component-level (P) and stepped-system (S) parts + case generation. (stub, filled in below)
+//! C10: component-level (P: one `Session::post_recv`), stepped-system (S: the real transport
+//! driven one model label at a time through the verification hooks) parts, and case generation.
+use core::num::NonZeroU8;
+use std::cell::RefCell;
+use std::fmt::Write as _;
+use std::rc::Rc;
+use std::time::Instant;
+
+use rs_matter::crypto::test_only_crypto;
+use rs_matter::error::Error;
+use rs_matter::transport::exchange::{Exchange, MessageMeta};
+use rs_matter::transport::network::{Address, NetworkSend};
+use rs_matter::transport::packet::PacketHdr;
+use rs_matter::transport::session::{Session, SessionMode, VerifSessionSnapshot};
+use rs_matter::transport::verif_hooks::RxCtrState;
+use rs_matter::utils::sync::IfMutex;
+
+use rsm_harness::e2e;
 use rsm_harness::Rng;
 
-pub fn run_p(_f: &[&str]) -> String {
-    String::new()
+use super::{classify, craft, err_class, op_wire, status_payload, B_NODE, G, G_NODE, PROTO};
+
+pub const MAX_EXCHANGES: usize = 5;
+
+// ------------------------------------------------------------------ P
+
+/// `<exid>/<I|R>/<o|d|p>/<retr|->/<ack|ack+|->` or `-`
+fn parse_slot(s: &str) -> Option<(u16, char, char, Option<u32>, Option<(u32, bool)>)> {
+    if s == "-" {
+        return None;
+    }
+    let p: Vec<&str> = s.split('/').collect();
+    let retr = if p[3] == "-" { None } else { Some(p[3].parse().unwrap()) };
+    let ack = if p[4] == "-" {
+        None
+    } else if let Some(a) = p[4].strip_suffix('+') {
+        Some((a.parse().unwrap(), true))
+    } else {
+        Some((p[4].parse().unwrap(), false))
+    };
+    Some((p[0].parse().unwrap(), p[1].chars().next().unwrap(), p[2].chars().next().unwrap(), retr, ack))
 }
-pub fn run_s(_ops: &str) -> String {
-    String::new()
+
+pub struct Msg {
+    pub ctr: u32,
+    pub exid: u16,
+    pub init: bool,
+    pub op: char,
+    pub rel: bool,
+    pub ack: Option<u32>,
 }
-pub fn generate(_tier: &str, _rng: &mut Rng) -> Vec<String> {
-    Vec::new()
+
+/// `<ctr>:<exid>:<i|r>:<op>:<rel>:<ack|->`
+pub fn parse_msg(s: &str) -> Msg {
+    let p: Vec<&str> = s.split(':').collect();
+    Msg {
+        ctr: p[0].parse().unwrap(),
+        exid: p[1].parse().unwrap(),
+        init: p[2] == "i",
+        op: p[3].chars().next().unwrap(),
+        rel: p[4] == "1",
+        ack: if p[5] == "-" { None } else { Some(p[5].parse().unwrap()) },
+    }
+}
+
+fn hdr_of(m: &Msg, sess_id: u16) -> PacketHdr {
+    let mut hdr = PacketHdr::new();
+    hdr.plain.sess_id = sess_id;
+    hdr.plain.ctr = m.ctr;
+    hdr.proto.exch_id = m.exid;
+    if m.init {
+        hdr.proto.set_initiator();
+    }
+    if m.rel {
+        hdr.proto.set_reliable();
+    }
+    hdr.proto.set_ack(m.ack);
+    let (pid, opc) = op_wire(m.op);
+    hdr.proto.proto_id = pid;
+    hdr.proto.proto_opcode = opc;
+    hdr
+}
+
+pub fn run_p(f: &[&str]) -> String {
+    let mut enc = true;
+    let mut exp = false;
+    let mut win = (false, 0u32, 0u16);
+    let mut pre: Vec<Option<(u16, char, char, Option<u32>, Option<(u32, bool)>)>> = vec![];
+    let mut msg = None;
+    for kv in &f[2..] {
+        let Some((k, v)) = kv.split_once('=') else { continue };
+        match k {
+            "enc" => enc = v == "1",
+            "exp" => exp = v == "1",
+            "win" => {
+                let p: Vec<&str> = v.split(':').collect();
+                win = (p[0] == "1", p[1].parse().unwrap(), p[2].parse().unwrap());
+            }
+            "pre" => pre = v.split(',').filter(|x| !x.is_empty()).map(parse_slot).collect(),
+            "msg" => msg = Some(parse_msg(v)),
+            _ => {}
+        }
+    }
+    let msg = msg.unwrap();
+    let mut s = Session::new(7, 100, false, e2e::node_addr(G), Some(G_NODE), 300, 300, 4000);
+    if enc {
+        s.verif_set_session_mode(SessionMode::Case { fab_idx: NonZeroU8::new(1).unwrap(), cat_ids: Default::default() });
+    }
+    s.verif_set_expired(exp);
+    *s.verif_rx_ctr_state() = RxCtrState::verif_from_raw(win.0, win.1, win.2);
+    for (i, slot) in pre.iter().enumerate() {
+        s.verif_set_exchange(i, *slot);
+    }
+    let hdr = hdr_of(&msg, 5);
+    let res = match s.verif_post_recv(&hdr) {
+        Ok(false) => "routed",
+        Ok(true) => "new",
+        Err(e) => err_class(&e),
+    };
+    let snap = s.verif_snapshot();
+    let w = snap.rx_ctr_state;
+    format!("{} [{}] w={}:{}:{}", res, super::slots_str(&snap, super::table_len(&snap)), w.0 as u8, w.1, w.2)
+}
+
+// ------------------------------------------------------------------ S
+
+#[derive(Clone)]
+struct Collect(Rc<RefCell<Vec<Vec<u8>>>>);
+
+impl NetworkSend for Collect {
+    async fn send_to(&mut self, data: &[u8], _addr: Address) -> Result<(), Error> {
+        self.0.borrow_mut().push(data.to_vec());
+        Ok(())
+    }
+}
+
+fn poll_once<F: core::future::Future>(f: F) -> Option<F::Output> {
+    e2e::block_on(futures_lite::future::poll_once(f))
+}
+
+/// canonical slot for the stepped runs: retransmission counter reduced to a flag, initiator
+/// exchange ids replaced by their script aliases
+fn s_slots(snap: &VerifSessionSnapshot, alias: &[(u32, u16, u16)]) -> String {
+    let n = super::table_len(snap);
+    let mut v = Vec::new();
+    for i in 0..n {
+        match snap.exchanges.iter().find(|e| e.index == i) {
+            Some(e) => {
+                let id = if e.role == 'I' {
+                    alias.iter().find(|a| a.0 == snap.id && a.1 == e.exch_id).map(|a| a.2).unwrap_or(e.exch_id)
+                } else {
+                    e.exch_id
+                };
+                v.push(format!(
+                    "{}/{}/{}/{}/{}",
+                    id,
+                    e.role,
+                    e.state,
+                    if e.retrans_ctr.is_some() { "1" } else { "0" },
+                    match e.ack_ctr {
+                        Some((c, false)) => c.to_string(),
+                        Some((c, true)) => format!("{}+", c),
+                        None => "-".into(),
+                    }
+                ));
+            }
+            None => v.push("-".to_string()),
+        }
+    }
+    v.join(",")
+}
+
+/// key of a session as the scripts name it: encrypted = local session id (1..9), unencrypted = 10 + low byte of the peer node id
+fn key_of(snap: &VerifSessionSnapshot) -> u32 {
+    if snap.local_sess_id != 0 {
+        snap.local_sess_id as u32
+    } else {
+        10 + (snap.peer_nodeid.unwrap_or(0) & 0xff) as u32
+    }
+}
+
+pub fn run_s(ops: &str) -> String {
+    let crypto = test_only_crypto();
+    let det = e2e::dev_det(Some(80), Some(80));
+    let matter = e2e::new_matter(det, true);
+    let runner = matter.transport_runner(&crypto);
+    let sent = Rc::new(RefCell::new(Vec::<Vec<u8>>::new()));
+    let send = IfMutex::new(Collect(sent.clone()));
+    // live Exchange objects by creation ordinal
+    let mut handles: Vec<Option<Exchange<'_>>> = Vec::new();
+    // (session id, real exchange id, alias) of initiator exchanges
+    let mut alias: Vec<(u32, u16, u16)> = Vec::new();
+    let mut kept_at: Option<Instant> = None;
+    let mut out = String::new();
+
+    let state_str = |handles: &Vec<Option<Exchange<'_>>>, alias: &Vec<(u32, u16, u16)>| -> String {
+        let sess: Vec<String> = matter.with_state(|st| {
+            st.verif_sessions()
+                .iter()
+                .map(|s| {
+                    let snap = s.verif_snapshot();
+                    format!(
+                        "S{}k{}{}{}[{}]",
+                        snap.id,
+                        key_of(&snap),
+                        if snap.local_sess_id != 0 { 'e' } else { 'u' },
+                        if snap.expired { 'x' } else { '-' },
+                        s_slots(&snap, alias)
+                    )
+                })
+                .collect()
+        });
+        let (locked, holding, hdr) = runner.verif_rx_state();
+        let rx = if locked {
+            "T".to_string()
+        } else if holding {
+            let key = if hdr.plain.sess_id != 0 {
+                hdr.plain.sess_id as u32
+            } else {
+                10 + (hdr.plain.get_src_nodeid().unwrap_or(0) & 0xff) as u32
+            };
+            // answers address initiator exchanges, which the scripts know by alias
+            let exid = if hdr.proto.is_initiator() {
+                hdr.proto.exch_id
+            } else {
+                alias.iter().find(|a| a.1 == hdr.proto.exch_id).map(|a| a.2).unwrap_or(hdr.proto.exch_id)
+            };
+            format!("H{}:{}:{}", key, exid, if hdr.proto.is_initiator() { 'i' } else { 'r' })
+        } else {
+            "E".to_string()
+        };
+        let hs: Vec<String> = handles.iter().map(|h| h.as_ref().map(|e| format!("{}", e.id()).replace("::", ".")).unwrap_or_else(|| "x".into())).collect();
+        format!("{}|rx={}|h={}", sess.join(";"), rx, hs.join(","))
+    };
+
+    for op in ops.split(';').filter(|x| !x.is_empty()) {
+        let sent_before = sent.borrow().len();
+        let kind = op.as_bytes()[0] as char;
+        let arg = &op[1..];
+        let res: String = match kind {
+            '+' => {
+                // establish an encrypted session with key = local session id
+                let k: u16 = arg.parse().unwrap();
+                match e2e::preset_case_session(&matter, &crypto, B_NODE, G_NODE, k, 20 + k, e2e::node_addr(G), 1, Default::default()) {
+                    Ok(()) => "ok".into(),
+                    Err(_) => "err".into(),
+                }
+            }
+            '-' => {
+                let sid: u32 = arg.parse().unwrap();
+                let r = matter.with_state(|st| st.verif_sessions().remove(sid).is_some());
+                if r { "ok".into() } else { "na".into() }
+            }
+            'x' => {
+                let sid: u32 = arg.parse().unwrap();
+                matter.with_state(|st| match st.verif_sessions().get(sid) {
+                    Some(s) => {
+                        s.verif_set_expired(true);
+                        "ok".to_string()
+                    }
+                    None => "na".to_string(),
+                })
+            }
+            't' => {
+                let ms: u64 = arg.parse().unwrap();
+                std::thread::sleep(std::time::Duration::from_millis(ms));
+                "ok".into()
+            }
+            'r' => {
+                // r<key>:<ctr>:<exid>:<i|r>:<op>:<rel>:<ack>   ack = - | @ (pending retransmission of the addressed exchange) | ! (a wrong counter)
+                let p: Vec<&str> = arg.split(':').collect();
+                let key: u32 = p[0].parse().unwrap();
+                let mut exid: u16 = p[2].parse().unwrap();
+                let init = p[3] == "i";
+                let op = p[4].chars().next().unwrap();
+                let rel = p[5] == "1";
+                let encrypted = key < 10;
+                // responder-role messages address initiator exchanges by alias
+                let mut target_retr: Option<u32> = None;
+                matter.with_state(|st| {
+                    for s in st.verif_sessions().iter() {
+                        let snap = s.verif_snapshot();
+                        if key_of(&snap) != key {
+                            continue;
+                        }
+                        if !init {
+                            if let Some(a) = alias.iter().find(|a| a.0 == snap.id && a.2 == exid) {
+                                exid = a.1;
+                            }
+                        }
+                        for e in snap.exchanges.iter() {
+                            if e.exch_id == exid && (e.role == 'R') == init {
+                                target_retr = e.retrans_ctr;
+                            }
+                        }
+                        break;
+                    }
+                });
+                let ack = match p[6] {
+                    "-" => None,
+                    "@" => Some(target_retr.unwrap_or(0)),
+                    _ => Some(target_retr.unwrap_or(0).wrapping_add(1000)),
+                };
+                let (pid, opc) = op_wire(op);
+                let body = match op {
+                    's' => status_payload(false),
+                    'c' => status_payload(true),
+                    _ => vec![0u8; 4],
+                };
+                let (sess_id, src) = if encrypted { (key as u16, G_NODE) } else { (0u16, 0x9000 + (key as u64 - 10)) };
+                let pkt = craft(&crypto, sess_id, p[1].parse().unwrap(), src, exid, init, rel, ack, pid, opc, &body, encrypted);
+                match e2e::block_on(runner.verif_rx_step(&pkt, e2e::node_addr(G), &send)) {
+                    None => "busy".into(),
+                    Some(true) => {
+                        kept_at = Some(Instant::now());
+                        "kept".into()
+                    }
+                    Some(false) => "gone".into(),
+                }
+            }
+            'A' => match poll_once(Exchange::accept(&matter)) {
+                Some(Ok(ex)) => {
+                    let id = format!("{}", ex.id()).replace("::", ".");
+                    handles.push(Some(ex));
+                    format!("acc:{}", id)
+                }
+                Some(Err(_)) => "no".into(),
+                None => "no".into(),
+            },
+            'v' => {
+                let n: usize = arg.parse().unwrap();
+                match handles.get_mut(n).and_then(|h| h.as_mut()) {
+                    None => "na".into(),
+                    Some(ex) => {
+                        if ex.rx().is_ok() {
+                            "holds".into()
+                        } else {
+                            match poll_once(ex.recv_fetch()) {
+                                Some(Ok(rx)) => {
+                                    let m = rx.meta();
+                                    let letter = match (m.proto_id, m.proto_opcode) {
+                                        (0, 0x10) => 'a',
+                                        (0, 0x40) => 's',
+                                        (0, 0x30) => 'n',
+                                        _ => 'o',
+                                    };
+                                    format!("got:{}", letter)
+                                }
+                                Some(Err(_)) => "no".into(),
+                                None => "no".into(),
+                            }
+                        }
+                    }
+                }
+            }
+            'd' => {
+                let n: usize = arg.parse().unwrap();
+                match handles.get_mut(n).and_then(|h| h.as_mut()) {
+                    None => "na".into(),
+                    Some(ex) => {
+                        if ex.rx().is_ok() {
+                            ex.rx_done().unwrap();
+                            "ok".into()
+                        } else {
+                            "no".into()
+                        }
+                    }
+                }
+            }
+            'D' => {
+                let n: usize = arg.parse().unwrap();
+                match handles.get_mut(n) {
+                    Some(h) if h.is_some() => {
+                        *h = None;
+                        "ok".into()
+                    }
+                    _ => "na".into(),
+                }
+            }
+            's' => {
+                // s<handle>:<rel>
+                let p: Vec<&str> = arg.split(':').collect();
+                let n: usize = p[0].parse().unwrap();
+                let rel = p[1] == "1";
+                match handles.get_mut(n).and_then(|h| h.as_mut()) {
+                    None => "na".into(),
+                    Some(ex) => {
+                        let r = match poll_once(ex.init_send()) {
+                            Some(Ok(tx)) => match tx.complete(PacketHdr::HDR_RESERVE, PacketHdr::HDR_RESERVE + 4, MessageMeta::new(PROTO, 3, rel)) {
+                                Ok(()) => "ok".to_string(),
+                                Err(e) if err_class(&e) == "txtimeout" => "timeout".to_string(),
+                                Err(_) => "no".to_string(),
+                            },
+                            Some(Err(_)) => "no".to_string(),
+                            None => "no".to_string(),
+                        };
+                        let _ = runner.verif_tx_flush();
+                        r
+                    }
+                }
+            }
+            'i' => {
+                // i<sid>:<alias exid>
+                let p: Vec<&str> = arg.split(':').collect();
+                let sid: u32 = p[0].parse().unwrap();
+                let al: u16 = p[1].parse().unwrap();
+                match Exchange::initiate_for_session(&matter, &crypto, sid) {
+                    Ok(ex) => {
+                        let id = format!("{}", ex.id());
+                        let (s, i) = id.split_once("::").unwrap();
+                        let (s, i): (u32, usize) = (s.parse().unwrap(), i.parse().unwrap());
+                        let real = matter.with_state(|st| {
+                            st.verif_sessions().iter().find(|x| x.id() == s).and_then(|x| x.verif_snapshot().exchanges.iter().find(|e| e.index == i).map(|e| e.exch_id))
+                        });
+                        alias.push((s, real.unwrap_or(0), al));
+                        handles.push(Some(ex));
+                        format!("ini:{}", id.replace("::", "."))
+                    }
+                    Err(_) => "no".into(),
+                }
+            }
+            'W' => match runner.verif_sweep_accept_timeout() {
+                Some(true) => format!("fired~{}", kept_at.map(|t| t.elapsed().as_millis()).unwrap_or(0)),
+                Some(false) => format!("no~{}", kept_at.map(|t| t.elapsed().as_millis()).unwrap_or(0)),
+                None => "no~0".into(),
+            },
+            'O' => match runner.verif_sweep_orphaned() {
+                Some(true) => "fired".into(),
+                Some(false) => "no".into(),
+                None => "no".into(),
+            },
+            'C' => match runner.verif_close_dropped() {
+                Some((found, q)) => {
+                    let what = match q {
+                        None => "none".to_string(),
+                        Some((0, 0x10, true)) => "sack".to_string(),
+                        Some((0, 0x40, true)) => "close".to_string(),
+                        Some((0, 0x10, false)) => "sack-unsent".to_string(),
+                        Some((0, 0x40, false)) => "close-unsent".to_string(),
+                        Some((p, o, _)) => format!("other{}:{}", p, o),
+                    };
+                    format!("{}:{}", if found { "closed" } else { "idle" }, what)
+                }
+                None => "txbusy".into(),
+            },
+            _ => "?".into(),
+        };
+        // what the transport sent directly during this step (duplicate acks, SessionNotFound, CloseSession on NoSpaceExchanges)
+        let direct: Vec<String> = sent.borrow()[sent_before..].iter().map(|b| {
+            let c = classify(&crypto, b, B_NODE);
+            c.split(':').next().unwrap_or("").to_string()
+        }).collect();
+        write!(out, "{}{}@{} ", res, if direct.is_empty() { String::new() } else { format!("+{}", direct.join("+")) }, state_str(&handles, &alias)).unwrap();
+    }
+    drop(handles);
+    out.trim_end().to_string()
+}
+
+// ------------------------------------------------------------------ generation
+
+fn slot_str(exid: u16, role: char, state: char, retr: Option<u32>, ack: Option<(u32, bool)>) -> String {
+    format!(
+        "{}/{}/{}/{}/{}",
+        exid,
+        role,
+        state,
+        retr.map(|c| c.to_string()).unwrap_or_else(|| "-".into()),
+        match ack {
+            Some((c, false)) => c.to_string(),
+            Some((c, true)) => format!("{}+", c),
+            None => "-".into(),
+        }
+    )
+}
+
+const ROLE_STATES: [(char, char); 5] = [('I', 'o'), ('I', 'd'), ('R', 'p'), ('R', 'o'), ('R', 'd')];
+
+pub fn generate(tier: &str, rng: &mut Rng) -> Vec<String> {
+    let thorough = tier == "thorough";
+    let mut cases = Vec::new();
+    let mut id = 0u64;
+    let mut nid = || {
+        id += 1;
+        id
+    };
+
+    // ---- P: exhaustive product
+    //   exchange id known/unknown x initiator flag x opcode class x expired x table shape x role/state of the existing exchange
+    //   x reliable x ack (none / matching the pending retransmission / not matching) x counter fresh/duplicate
+    let ops = ['o', 'n', 'a', 's', 'c'];
+    for &(role, state) in ROLE_STATES.iter() {
+        for known in [true, false] {
+            for init in [true, false] {
+                for &op in ops.iter() {
+                    for exp in [false, true] {
+                        for shape in 0..4 {
+                            for mrp in 0..4 {
+                                // existing exchange: id 100; its reliability state
+                                let (retr, ack) = match mrp {
+                                    0 => (None, None),
+                                    1 => (Some(77u32), None),
+                                    2 => (None, Some((55u32, false))),
+                                    _ => (Some(77u32), Some((55u32, true))),
+                                };
+                                let existing = slot_str(100, role, state, retr, ack);
+                                let filler = |i: u16| slot_str(200 + i, 'R', 'o', None, None);
+                                // table shapes: only the exchange; exchange + freed slot; full table (5); full length with a freed slot in the middle
+                                let pre: Vec<String> = match shape {
+                                    0 => vec![existing.clone()],
+                                    1 => vec!["-".into(), existing.clone()],
+                                    2 => vec![filler(0), filler(1), existing.clone(), filler(3), filler(4)],
+                                    _ => vec![filler(0), "-".into(), existing.clone(), filler(3), filler(4)],
+                                };
+                                let exid = if known { 100 } else { 101 };
+                                for (rel, ackv) in [(true, "-"), (false, "77"), (true, "78")] {
+                                    cases.push(format!(
+                                        "P {} enc=1 exp={} win=1:10:65535 pre={} msg=11:{}:{}:{}:{}:{}",
+                                        nid(),
+                                        exp as u8,
+                                        pre.join(","),
+                                        exid,
+                                        if init { 'i' } else { 'r' },
+                                        op,
+                                        rel as u8,
+                                        ackv
+                                    ));
+                                }
+                                let _ = mrp;
+                            }
+                        }
+                    }
+                }
+            }
+        }
+    }
+    // duplicates / window edge, unencrypted sessions, empty table, two exchanges with the same id and opposite roles
+    for enc in [true, false] {
+        for (win, ctr) in [("0:0:0", 5u32), ("1:10:65535", 10), ("1:10:65535", 9), ("1:40:0", 30), ("1:40:0", 20), ("1:40:0", 41)] {
+            for init in [true, false] {
+                for pre in ["", "100/R/o/-/-", "100/I/o/-/-,100/R/o/-/-", "100/R/d/-/7,100/I/o/9/-"] {
+                    cases.push(format!(
+                        "P {} enc={} exp=0 win={} pre={} msg={}:100:{}:o:1:-",
+                        nid(),
+                        enc as u8,
+                        win,
+                        pre,
+                        ctr,
+                        if init { 'i' } else { 'r' }
+                    ));
+                }
+            }
+        }
+    }
+    // random tables
+    let n_rand = if thorough { 40000 } else { 4000 };
+    for _ in 0..n_rand {
+        let len = rng.below(MAX_EXCHANGES as u64 + 1) as usize;
+        let mut pre = Vec::new();
+        for _ in 0..len {
+            if rng.chance(1, 5) {
+                pre.push("-".to_string());
+            } else {
+                let (r, s) = *rng.pick(&ROLE_STATES);
+                let retr = if rng.chance(1, 3) { Some(70 + rng.below(3) as u32) } else { None };
+                let ack = if rng.chance(1, 3) { Some((50 + rng.below(3) as u32, rng.chance(1, 2))) } else { None };
+                pre.push(slot_str(100 + rng.below(3) as u16, r, s, retr, ack));
+            }
+        }
+        let win = match rng.below(3) {
+            0 => "0:0:0".to_string(),
+            1 => format!("1:{}:{}", 10 + rng.below(30), rng.below(65536)),
+            _ => "1:20:65535".to_string(),
+        };
+        let ackv = match rng.below(3) {
+            0 => "-".to_string(),
+            _ => (70 + rng.below(3)).to_string(),
+        };
+        cases.push(format!(
+            "P {} enc={} exp={} win={} pre={} msg={}:{}:{}:{}:{}:{}",
+            nid(),
+            rng.chance(4, 5) as u8,
+            rng.chance(1, 5) as u8,
+            win,
+            pre.join(","),
+            rng.below(60),
+            100 + rng.below(4),
+            if rng.chance(1, 2) { 'i' } else { 'r' },
+            rng.pick(&ops),
+            rng.chance(2, 3) as u8,
+            ackv
+        ));
+    }
+
+    // ---- S: the transport stepped label by label
+    let s_fixed: Vec<&str> = vec![
+        // accept, deliver, consume, drop with ack pending, closer acknowledges
+        "+1;r1:1:100:i:o:1:-;A;v0;d0;D0;C;C",
+        // nobody accepts: accept timeout, orphan sweeper idle, closer acknowledges
+        "+1;r1:1:100:i:o:1:-;W;O;t1100;W;C;O",
+        // accepted then dropped before recv: orphan sweeper takes the message
+        "+1;r1:1:100:i:o:1:-;A;D0;O;C",
+        // session removed with a message in flight; a dangling Exchange must not take the next message
+        "+1;+2;r1:1:100:i:o:1:-;A;v0;d0;-0;r2:1:200:i:o:1:-;v0;A;v1;d1;D1;D0;C",
+        // message for an exchange whose session vanished while it sat in the slot
+        "+1;r1:1:100:i:o:1:-;-0;W;O",
+        // answers / acks / status reports to unknown exchanges; initiator opener on an expired session
+        "+1;r1:1:100:r:o:1:-;r1:2:100:i:a:0:-;r1:3:100:i:s:0:-;r1:4:100:i:c:0:-;x0;r1:5:100:i:o:1:-",
+        // duplicate counter => standalone ack; duplicate standalone ack => nothing
+        "+1;r1:1:100:i:o:1:-;A;v0;d0;r1:1:100:i:o:1:-;r1:2:100:i:a:0:-;r1:2:100:i:a:0:-",
+        // six openers on one session: the sixth closes the session (NoSpaceExchanges)
+        "+1;r1:1:100:i:o:1:-;A;v0;d0;r1:2:101:i:o:1:-;A;v1;d1;r1:3:102:i:o:1:-;A;v2;d2;r1:4:103:i:o:1:-;A;v3;d3;r1:5:104:i:o:1:-;A;v4;d4;r1:6:105:i:o:1:-;v0;D0;C",
+        // reliable reply abandoned mid-retransmission: closer closes the session
+        "+1;+2;r1:1:100:i:o:1:-;A;v0;s0:1;D0;C;C;r2:1:200:i:o:1:-;A;v1",
+        // initiator exchange: send, answer with matching ack, recv, drop
+        "+1;i0:900;s0:1;r1:1:900:r:o:1:@;v0;d0;D0;C",
+        // initiator exchange: answer with a wrong ack while a retransmission is pending => duplicate
+        "+1;i0:900;s0:1;r1:1:900:r:o:1:!;v0;r1:2:900:r:o:1:@;v0",
+        // CloseSession on a known exchange removes the session; on an unknown one it is dropped
+        "+1;r1:1:100:i:o:1:-;A;v0;d0;r1:2:100:i:c:0:-;O;D0",
+        "+1;r1:1:100:i:c:0:-",
+        // unencrypted: new-session opcode creates a session; other opcodes get SessionNotFound
+        "r11:1:50:i:n:1:-;A;v0;d0;D0;C",
+        "r11:1:50:i:o:1:-;r5:1:50:i:o:1:-",
+        // retransmission budget: five transmissions then give-up clears the entry
+        "+1;r1:1:100:i:o:1:-;A;v0;s0:1;s0:1;s0:1;s0:1;s0:1;s0:1;D0;C",
+        // message held by its Exchange blocks RX; dropping the Exchange releases it
+        "+1;r1:1:100:i:o:1:-;A;v0;r1:2:101:i:o:1:-;D0;r1:2:101:i:o:1:-;C",
+        // two sessions, several dropped exchanges: closing order follows the session table
+        "+1;+2;r1:1:100:i:o:1:-;A;v0;d0;r2:1:200:i:o:1:-;A;v1;d1;D1;D0;C;C;C",
+        // swap_remove order: remove the first of three sessions
+        "+1;+2;+3;-0;r3:1:300:i:o:1:-;A;v0;D0;O;C",
+        // late accept just before the deadline
+        "+1;r1:1:100:i:o:1:-;t400;W;t400;W;A;v0;d0;D0;C",
+    ];
+    for s in s_fixed {
+        cases.push(format!("S {} {}", nid(), s));
+    }
+    // random label sequences
+    let n_s = if thorough { 1600 } else { 220 };
+    for k in 0..n_s {
+        let len = rng.range(6, 26);
+        let mut ops: Vec<String> = Vec::new();
+        let n_sess = rng.range(1, 3);
+        for s in 1..=n_sess {
+            ops.push(format!("+{}", s));
+        }
+        let mut ctr = [0u32; 4];
+        let mut n_handles = 0u64;
+        let mut ticks = 0;
+        // rough guess whether the RX slot is occupied (steers the choice only)
+        let mut held = false;
+        for _ in 0..len {
+            let c = rng.below(100);
+            let h = if n_handles == 0 { 0 } else { rng.below(n_handles + 1) };
+            if c < 30 {
+                let key = rng.range(1, n_sess) as usize;
+                ctr[key] += 1;
+                // mostly fresh counters, sometimes a repeat
+                let cval = if rng.chance(1, 8) && ctr[key] > 1 { ctr[key] - 1 } else { ctr[key] };
+                let exid = if rng.chance(1, 6) { 900 + rng.below(2) } else { 100 + rng.below(3) };
+                let init = if exid >= 900 { rng.chance(1, 5) } else { rng.chance(4, 5) };
+                let op = *rng.pick(&['o', 'o', 'o', 'o', 'n', 'a', 's', 'c']);
+                let ack = *rng.pick(&["-", "-", "@", "!"]);
+                ops.push(format!("r{}:{}:{}:{}:{}:{}:{}", key, cval, exid, if init { 'i' } else { 'r' }, op, rng.chance(2, 3) as u8, ack));
+                // steer: an opener on a free slot is usually accepted and often received, consumed, answered
+                if !held && init && matches!(op, 'o' | 'n') && cval == ctr[key] {
+                    held = true;
+                    if rng.chance(3, 5) {
+                        ops.push("A".into());
+                        let me = n_handles;
+                        n_handles += 1;
+                        if rng.chance(3, 4) {
+                            ops.push(format!("v{}", me));
+                            if rng.chance(3, 4) {
+                                ops.push(format!("d{}", me));
+                                held = false;
+                            }
+                            if rng.chance(1, 3) {
+                                ops.push(format!("s{}:{}", me, rng.chance(2, 3) as u8));
+                                held = false;
+                            }
+                            if rng.chance(1, 3) {
+                                ops.push(format!("D{}", me));
+                                held = false;
+                            }
+                        }
+                    }
+                }
+            } else if c < 45 {
+                ops.push("A".into());
+                if held {
+                    n_handles += 1; // may not fire; ordinals beyond the real count are "na"
+                }
+            } else if c < 57 {
+                ops.push(format!("v{}", h));
+            } else if c < 63 {
+                ops.push(format!("d{}", h));
+            } else if c < 71 {
+                ops.push(format!("D{}", h));
+            } else if c < 77 {
+                ops.push(format!("s{}:{}", h, rng.chance(2, 3) as u8));
+            } else if c < 81 {
+                ops.push(format!("i{}:{}", rng.below(n_sess), 900 + rng.below(2)));
+                n_handles += 1;
+            } else if c < 86 {
+                ops.push("W".into());
+            } else if c < 91 {
+                ops.push("O".into());
+                held = false;
+            } else if c < 95 {
+                ops.push("C".into());
+            } else if c < 97 {
+                ops.push(format!("-{}", rng.below(n_sess)));
+            } else if c < 98 {
+                ops.push(format!("x{}", rng.below(n_sess)));
+            } else if ticks < 2 && k % 4 == 0 {
+                // real sleeps: only in every fourth case, at most two per case
+                ticks += 1;
+                ops.push(format!("t{}", rng.pick(&[400u32, 1100])));
+            } else {
+                ops.push("W".into());
+            }
+        }
+        // always end by closing and sweeping so that wedged leftovers show
+        ops.push("C".into());
+        ops.push("O".into());
+        cases.push(format!("S {} {}", nid(), ops.join(";")));
+    }
+
+    // ---- E: end to end
+    let e_fixed: Vec<&str> = vec![
+        "h=n0.n0.n0.n0 ga=1 s=g1:100:i:1:o:1:0;w60;p2500",
+        // never accepted (no handlers): accept timeout, closer acks, then a handler-less device still answers nothing but stays clean
+        "h= ga=1 s=g1:100:i:1:o:1:0;w1300",
+        // accepted late (600 ms) by the only handler
+        "h=n600 ga=1 s=g1:100:i:1:o:1:0;w900;q2:2500",
+        // handler that accepts and drops at once; message orphaned; probe still answered
+        "h=y0.n0 ga=1 s=g1:100:i:1:o:2:0;w150;p2500;q2:2500",
+        // a busy responder that drops whatever nobody accepted within 500 ms
+        "h=n0.x500 ga=1 s=g1:100:i:1:o:5:900;w50;g2:200:i:1:o:1:0;w1000;q2:2500;p2500",
+        // handler drops without answering: closer acknowledges
+        "h=n0.n0 ga=1 s=g1:100:i:1:o:2:0;w250;q1:2500;p2500",
+        // reply abandoned mid-retransmission: session closed with CloseSession, other session keeps working
+        "h=n0.n0.n0.n0 ga=0 s=g1:100:i:1:o:3:30;w400;q2:2500;p2500",
+        // the repaired wedge: exchanges waiting in recv on a session that gets closed must not eat the probe
+        "h=n0.n0.n0.n0 ga=0 s=g2:300:i:1:o:5:3000;w50;g1:301:i:1:o:5:3000;w50;g1:302:i:1:o:3:30;w300;p2500;q2:2500",
+        // message held by its handler for 300 ms blocks RX; traffic resumes afterwards
+        "h=n0.n0.n0 ga=1 s=g1:100:i:1:o:4:300;w20;g2:200:i:1:o:1:0;w600;p2500",
+        // garbage: answers, acks and status reports to unknown exchanges on both ghost sessions, then probes
+        "h=n0.n0 ga=1 s=g1:500:r:1:o:1:0;g1:501:i:0:a:1:0;g2:502:i:1:s:1:0;g2:503:r:0:a:1:0;g1:504:i:1:c:1:0;w100;q1:2500;q2:2500;p2500",
+        // six concurrent exchanges on one session: the sixth closes it; the other session and the controller are unaffected
+        "h=n0.n0.n0.n0.n0.n0.n0 ga=1 s=g1:100:i:1:o:5:2000;w20;g1:101:i:1:o:5:2000;w20;g1:102:i:1:o:5:2000;w20;g1:103:i:1:o:5:2000;w20;g1:104:i:1:o:5:2000;w20;g1:105:i:1:o:1:0;w200;q2:2500;p2500",
+        // all handlers busy: a new exchange times out after 1 s, then handlers free up
+        "h=n0 ga=1 s=g1:100:i:1:o:5:1500;w50;g2:200:i:1:o:1:0;w1400;w400;q2:2500;p2500",
+        // second message for a waiting exchange is delivered to it, not to a new handler
+        "h=n0.n0 ga=1 s=g1:100:i:1:o:5:1000;w100;g1:100:i:1:o:1:0;w300;p2500",
+    ];
+    for s in e_fixed {
+        cases.push(format!("E {} {}", nid(), s));
+    }
+    let n_e = if thorough { 120 } else { 14 };
+    for _ in 0..n_e {
+        let nh = rng.range(1, 4);
+        let hs: Vec<String> = (0..nh)
+            .map(|_| match rng.below(8) {
+                0 => "x500".to_string(),
+                1 => format!("n{}", rng.pick(&[300u32, 600])),
+                _ => "n0".to_string(),
+            })
+            .collect();
+        let mut hs = hs;
+        if !hs.iter().any(|h| h == "n0") {
+            hs[0] = "n0".to_string();
+        }
+        let mut script: Vec<String> = Vec::new();
+        let nops = rng.range(3, 8);
+        let mut exid = 100u16;
+        for _ in 0..nops {
+            let sess = rng.range(1, 2);
+            match rng.below(10) {
+                0..=5 => {
+                    exid += 1;
+                    let beh = *rng.pick(&[1u8, 1, 2, 3, 4, 5, 6]);
+                    // handlers stay busy well below the accept deadline
+                    let arg = match beh {
+                        3 => 30,
+                        4 => *rng.pick(&[100u16, 300]),
+                        5 => *rng.pick(&[200u16, 600]),
+                        6 => 100,
+                        _ => 0,
+                    };
+                    script.push(format!("g{}:{}:i:1:o:{}:{}", sess, exid, beh, arg));
+                }
+                6 => script.push(format!("g{}:{}:r:1:o:1:0", sess, 600 + rng.below(5))),
+                7 => script.push(format!("g{}:{}:i:0:{}:1:0", sess, 700 + rng.below(5), rng.pick(&['a', 's']))),
+                _ => script.push(format!("w{}", rng.pick(&[20u32, 150, 400]))),
+            }
+            if rng.chance(1, 2) {
+                script.push(format!("w{}", rng.pick(&[10u32, 50, 120])));
+            }
+        }
+        // let the backlog drain (every unaccepted exchange may hold the RX buffer for the accept deadline),
+        // then probe from the ghost and from the real controller; probes retry once like a real peer
+        script.push("w1500".into());
+        script.push("q2:6000".into());
+        script.push("p6000".into());
+        cases.push(format!("E {} h={} ga=1 s={}", nid(), hs.join("."), script.join(";")));
+    }
+    cases
 }
